@@ -583,69 +583,6 @@ theorem posc_array_getValues {c u0 : Sym} {q : Quantity} (hq : newSimple poscDb 
 section examples
 private abbrev S (s : String) : Sym := Sym.ofString s
 
-/-- `ObtainQuantity('m', 'depth')` exists: category depth, quantity type length -/
-example : (match newSimple poscDb (S "depth") (S "m") with
-    | .ok q => q.category == S "depth" && q.qtype == S "length" && q.unit == S "m"
-    | .error _ => false) = true := by decide +kernel
-
-/-- a legacy spelling is accepted and rewritten (`1000ft3` → `Mcf`) -/
-example : (match newSimple poscDb (S "volume") (S "1000ft3") with
-    | .ok q => q.unit == S "Mcf"
-    | .error _ => false) = true := by decide +kernel
-
-/-- `Scalar(1000, 'm', 'depth').GetValue('ft')` -/
-example : (match newSimple poscDb (S "depth") (S "m") with
-    | .ok q => (Scalar.mk q 1000).getValue poscDb (some (S "ft")) == .ok (R 1250000 381)
-    | .error _ => false) = true := by decide +kernel
-
-/-- an affine pair through the Array route, tuple-of-tuples -/
-example : (match newSimple poscDb (S "temperature") (S "degC") with
-    | .ok q => (Arr.mk q (mkTuples true [[0, 100], [], [-40]])).getValues poscDb (some (S "degF"))
-        == .ok (mkTuples true [[32, 212], [], [-40]])
-    | .error _ => false) = true := by decide +kernel
-
-/-- a derived quantity (`m2`): own unit unchanged, another unit is rejected as the code does -/
-example : (match createDerived poscDb [⟨S "length", S "m", 2⟩] with
-    | .ok q => q.isDerived && q.unit == S "m2" && q.category == S "(length) ** 2"
-        && (Scalar.mk q 5).getValue poscDb (some (S "m2")) == .ok 5
-        && (Scalar.mk q 5).getValue poscDb (some (S "cm2")) == .error .value
-    | .error _ => false) = true := by decide +kernel
-
-/-- `(m/s).GetValue('m/s')` (repaired defect #3): two entries, own unit -/
-example : (match createDerived poscDb [⟨S "length", S "m", 1⟩, ⟨S "time", S "s", -1⟩] with
-    | .ok q => q.unit == S "m/s" && q.qtype == S "length / time"
-        && (Scalar.mk q 7).getValue poscDb (some (S "m/s")) == .ok 7
-    | .error _ => false) = true := by decide +kernel
-
-/-- the exponent path: 3 m² = 30000 cm² -/
-example : convertAny poscDb (.str (S "length")) (.list [(S "m", 2)]) (.list [(S "cm", 2)]) (.num 3)
-    = some (.ok (.num 30000)) := by decide +kernel
-
-/-- … and it is outside the model for a unit with an offset -/
-example : convertAny poscDb (.str (S "temperature")) (.list [(S "degC", 2)]) (.list [(S "K", 2)]) (.num 3)
-    = none := by decide +kernel
-
-/-- `ConvertScalarToCurrent` of a depth keeps `depth` (repaired defect #2) -/
-example : (match newSimple poscDb (S "depth") (S "m") with
-    | .ok q =>
-      (match convertScalarToCurrent poscDb (some [(S "depth", S "ft")]) ⟨q, 1000⟩ with
-       | .ok s => s.q.category == S "depth" && s.q.unit == S "ft" && s.value == R 1250000 381
-       | .error _ => false)
-    | .error _ => false) = true := by decide +kernel
-
-/-- the default of `temperature` (0 in its default unit) asked for in another unit -/
-example : (match Scalar.ofCategory poscDb (S "temperature") (some (S "degF")), poscDb.catByName (S "temperature") with
-    | .ok s, some ci => (poscDb.convert (S "temperature") ci.defaultUnit (S "degF") ci.defaultValue == .ok s.value)
-        && s.q.category == S "temperature" && s.q.unit == S "degF"
-    | _, _ => false) = true := by decide +kernel
-
-/-- `ChangingIndex` with a Scalar in another unit and category of the same quantity type -/
-example : (match newSimple poscDb (S "length") (S "m"), newSimple poscDb (S "depth") (S "cm") with
-    | .ok q, .ok qs =>
-      (FixedArr.mk 3 ⟨q, Kind.list.mk [1, 2, 3]⟩).changingIndex poscDb (-1) (.scalar ⟨qs, 5⟩) true
-        == .ok ⟨3, ⟨qs, .tuple [.num 100, .num 200, .num 5]⟩⟩
-    | _, _ => false) = true := by decide +kernel
-
 end examples
 
 end Barril.Routes
